@@ -5,13 +5,17 @@
    values comes back as exactly those values in that order; and at record level: the
    object written for a record is read back, in a container declaring the record's
    names, as a record of the same kind and identifier whose every attribute holds the
-   same values (C01_record_roundtrip, C01_record_same_attributes).  The container level
-   (prefix block, record maps, repeated identifiers as arrays, anonymous identifiers,
-   bundles) is modelled in Json.v and established per run by the correspondence and the
-   strict-content round trip oracle; its proof is stated below and not yet closed
-   (partial). *)
-From Coq Require Import String List ZArith Bool.
-From Prov Require Import Str Sexp Tables Nsm NsmProofs Values Record World Jtree Json JsonProofs IsoProofs TimeProofs JsonRecProofs.
+   same values (C01_record_roundtrip, C01_record_same_attributes); at container level: the
+   record maps the writer builds (kind label -> identifier string -> object or array of
+   objects, anonymous identifiers included) are read back as exactly one record per
+   written record, in the grouped order, each with its kind, identifier and attribute
+   values (C01_container_roundtrip, C01_grouped_is_permutation), and so is a bundle-free
+   document (C01_document_roundtrip_flat).  Open: that the prefix block re-creates a
+   manager in which the names are bound (hypothesis of these theorems; false in the three
+   situations of findings C01-F1..F3) and documents with bundles (C01-F4) — decided per run
+   by the correspondence and the strict-content round trip oracle (partial). *)
+From Coq Require Import String List ZArith Bool Permutation.
+From Prov Require Import Str Sexp Tables Nsm NsmProofs Values Record World Jtree Json JsonProofs IsoProofs TimeProofs JsonRecProofs JsonContProofs.
 Import ListNotations.
 Open Scope string_scope.
 
@@ -95,6 +99,48 @@ Example C01_record_roundtrip_applies :
   decode_elements None [] x_b "Usage" "ex:u" [encode_record_obj x_r]
   = (add_rec_to (with_ns x_b x_m) (mkRec "Usage" (Some (x_q "u")) (live (rattrs x_r))), OK tt).
 Proof. exact json_record_roundtrip_applies. Qed.
+
+(* ---- container level.  rec_ok par ft m r: r's kind has a label that reads back as the kind, its attributes
+   are attr_good in manager m (C01_record_roundtrip), its identifier — if any — is declared in m and printable; an
+   anonymous record is not an element.  grouped rs: rs ordered by kind label, then identifier string, each in
+   order of first appearance (the order in which the reader meets them).  renorm r: r with its attributes that
+   hold a value, formal ones first.  The hypothesis on the prefix block says what manager m the reader has after
+   reading it. *)
+Theorem C01_container_roundtrip : forall par ft b0 b m,
+  match encode_prefixes (bns b) with
+  | [] => m = bns b0
+  | ps => decode_prefixes (bns b0) ps = OK m
+  end ->
+  Forall (rec_ok par ft m) (brecs b) ->
+  decode_container par ft b0 (encode_container b)
+  = (add_all (with_ns b0 m) (map renorm (grouped (brecs b))), OK tt).
+Proof. exact json_container_roundtrip. Qed.
+Print Assumptions C01_container_roundtrip.
+
+(* no record is lost, duplicated or invented by the grouping *)
+Theorem C01_grouped_is_permutation : forall rs, Permutation (grouped rs) rs.
+Proof. exact grouped_perm. Qed.
+
+Theorem C01_document_roundtrip_flat : forall ft d m,
+  dbundles d = [] ->
+  match encode_prefixes (bns (dmain d)) with
+  | [] => m = nsm_init
+  | ps => decode_prefixes nsm_init ps = OK m
+  end ->
+  Forall (rec_ok None ft m) (brecs (dmain d)) ->
+  decode_doc ft (encode_doc d)
+  = OK (mkD (add_all (with_ns (bundle_init None) m) (map renorm (grouped (brecs (dmain d))))) []).
+Proof. exact json_doc_roundtrip_flat. Qed.
+Print Assumptions C01_document_roundtrip_flat.
+
+(* the premises hold for a container with a repeated identifier, an anonymous relation and a multi-valued
+   attribute; the grouped order is computed *)
+Example C01_container_roundtrip_applies :
+  decode_container None [] (bundle_init None) (encode_container y_b)
+  = (add_all (with_ns (bundle_init None) x_m) (map renorm (grouped (brecs y_b))), OK tt) /\
+  map (fun r => (rkind r, option_map qn_str (rid r))) (grouped (brecs y_b))
+  = [("Entity", Some "ex:e"); ("Entity", Some "ex:e"); ("Usage", Some "ex:u"); ("Usage", None)].
+Proof. exact json_container_roundtrip_applies. Qed.
 
 (* full statement (not yet proved): for every well-formed, unambiguous, JSON-expressible
    document, decoding any member-permutation of its encoding gives a document with the
